@@ -347,6 +347,131 @@ func c06r2(c *Ctx) {
 		}
 		c.Check("CDS:ClusterBuilder."+f.Name()+" keyed", acc.Pos, keyed, det)
 	}
+	// (c) RDS: key construction and generation share one function, so the key side is taken by value flow: every proxy
+	// attribute that reaches a field of the route.Cache literal (directly, or inside a module function the proxy is
+	// handed to on the way) is keyed; the generation side is everything reachable from the function that builds and
+	// caches the RouteConfiguration.
+	rgenFn := p.Func(pkgCore, "ConfigGeneratorImpl", "buildSidecarOutboundHTTPRouteConfig")
+	rkeyFn := p.Func(pkgCore, "", "BuildSidecarOutboundVirtualHosts")
+	// the cached RDS is the sidecar outbound one: specialise to sidecar proxies, and do not walk into the cache
+	// (Add/Get reach every other entry's Key() through the interface)
+	noEW := false
+	sidecar := newSpec(p, "SidecarProxy", &noEW, "")
+	stopAtCache := func(f *ssa.Function) bool {
+		if f.Signature.Recv() == nil {
+			return false
+		}
+		t := f.Signature.Recv().Type()
+		if pt, ok := t.(*types.Pointer); ok {
+			t = pt.Elem()
+		}
+		n, ok := t.(*types.Named)
+		return ok && n.Obj().Pkg() != nil && n.Obj().Pkg().Path() == istioMod+"/"+pkgModel && strings.Contains(n.Obj().Name(), "Cache")
+	}
+	rgen := p.CG().ReachLive([]*ssa.Function{rgenFn}, stopAtCache, sidecar.live)
+	rge := effectsOfLive(rgen, sidecar.live)
+	cacheT := p.Struct(pkgRoute, "Cache")
+	keyed := map[*types.Var]bool{}
+	seenV := map[ssa.Value]bool{}
+	var back func(v ssa.Value, d int)
+	back = func(v ssa.Value, d int) {
+		if v == nil || seenV[v] || d > 10 {
+			return
+		}
+		seenV[v] = true
+		if f := fieldOfLoad(v); f != nil {
+			keyed[f] = true
+		}
+		switch x := v.(type) {
+		case *ssa.UnOp:
+			back(x.X, d+1)
+		case *ssa.FieldAddr:
+			keyed[fieldVar(x.X.Type(), x.Field)] = true
+			back(x.X, d+1)
+		case *ssa.Field:
+			keyed[fieldVar(x.X.Type(), x.Field)] = true
+			back(x.X, d+1)
+		case *ssa.Convert:
+			back(x.X, d+1)
+		case *ssa.ChangeType:
+			back(x.X, d+1)
+		case *ssa.BinOp:
+			back(x.X, d+1)
+			back(x.Y, d+1)
+		case *ssa.Phi:
+			for _, e := range x.Edges {
+				back(e, d+1)
+			}
+		case *ssa.Extract:
+			back(x.Tuple, d+1)
+		case *ssa.Alloc:
+			// a local (struct) variable: whatever was stored into it
+			for _, r := range *x.Referrers() {
+				if st, ok := r.(*ssa.Store); ok && st.Addr == ssa.Value(x) {
+					back(st.Val, d+1)
+				}
+			}
+		case *ssa.Call:
+			for _, a := range x.Call.Args {
+				back(a, d+1)
+			}
+			if sc := x.Call.StaticCallee(); sc != nil && isIstioFunc(sc) {
+				for f := range effectsOf(p.CG().Reach([]*ssa.Function{sc}, nil)).Reads {
+					keyed[f] = true
+				}
+			}
+		}
+	}
+	nKeyStores := 0
+	eachInstr(rkeyFn, func(ins ssa.Instruction) {
+		st, ok := ins.(*ssa.Store)
+		if !ok {
+			return
+		}
+		fa, ok := st.Addr.(*ssa.FieldAddr)
+		if !ok || structOf(fa.X.Type()) != cacheT {
+			return
+		}
+		nKeyStores++
+		back(st.Val, 0)
+	})
+	c.Check("RDS: the route cache entry is built in BuildSidecarOutboundVirtualHosts", rkeyFn.Pos(), nKeyStores >= 8, fmt.Sprintf("%d stores into route.Cache fields found", nKeyStores))
+	rdsExcept := map[string]string{
+		"Proxy.RWMutex":            "lock, not an attribute",
+		"Proxy.Metadata":           "container; individual NodeMetadata fields are checked",
+		"Proxy.ID":                 "metric / log text only",
+		"Proxy.SidecarScope":       "the scope's contribution is keyed by value: Services, VirtualServices, DestinationRules of the egress listener are key fields",
+		"Proxy.Labels":             "read for sourceLabels matching only; an entry whose VirtualServices carry a source match is not Cacheable()",
+		"Proxy.ConfigNamespace":    "read for sourceNamespace matching (not Cacheable()) and for same-namespace tie-breaks between the listener's services, which are key fields",
+		"NodeMetadata.Namespace":   "same as Proxy.ConfigNamespace",
+		"NodeMetadata.Generator":   "IsProxylessGrpc via SidecarIgnorePort: proxyless gRPC clients are served by grpcgen, which calls BuildSidecarOutboundVirtualHosts with the disabled cache; proxies that reach the cached path have no generator",
+		"NodeMetadata.Network":     "read by waypointKeyForProxy behind opts.LookupDestinationCluster, which only the waypoint listener builder binds (field-based function-value resolution over-approximates); sidecar RDS never calls it",
+		"Proxy.ServiceTargets":     "same path as NodeMetadata.Network (waypoint only)",
+		"Proxy.MergedGateway":      "EnvoyFilter route patching reads it for the GATEWAY patch context only; nil for sidecars (same exemption as C01-R4)",
+	}
+	var rnames []string
+	for f, nm := range isProxyAttr {
+		if _, ok := rge.Reads[f]; ok {
+			rnames = append(rnames, nm)
+		}
+	}
+	sort.Strings(rnames)
+	c.Infof("RDS cached generation reads proxy attributes: %v", rnames)
+	for f, nm := range isProxyAttr {
+		acc, read := rge.Reads[f]
+		if !read {
+			continue
+		}
+		if _, ex := rdsExcept[nm]; ex {
+			continue
+		}
+		n++
+		det := ""
+		if !keyed[f] {
+			det = fmt.Sprintf("the cached sidecar RDS generation reads %s (%s, via %s) but nothing derived from it reaches a field of route.Cache: proxies that differ only in it share a cached RouteConfiguration", nm, p.pos(acc.Pos), pathTo(rgen, acc.Fn))
+		}
+		c.Check("RDS:"+nm+" keyed", acc.Pos, keyed[f], det)
+	}
 	c.Floor(8)
 }
 
